@@ -299,6 +299,64 @@ func c01Enum(pairs bool) func(c *sim.Case) {
 	}
 }
 
+// c01Server: the assembled filter (server.ExtAuthZFilter.Check, real generator and clock) in front of a provider
+// whose discovery document, key endpoint or token endpoint is broken: whatever is sent, no answer may be OK until a
+// login has genuinely completed, and a handler that cannot be built must yield an error or a denial.
+func c01Server(c *sim.Case) {
+	w := sim.NewWorld(c, sim.WorldOpts{ViaServer: true, Discovery: true, Logout: true, AccessToken: sim.Bool(c, "at"),
+		Store: sim.PickStr(c, "store", "memory", "redis")})
+	defer w.Close()
+	broken := sim.PickStr(c, "broken", "discovery-garbage", "discovery-empty", "discovery-wrong-types", "discovery-no-endpoints", "jwks-garbage", "jwks-empty-set", "token-503")
+	garbage, empty, wrong, noend := "<html>", "", `{"authorization_endpoint":5,"token_endpoint":[]}`, `{"issuer":"x"}`
+	emptySet := `{"keys":[]}`
+	switch broken {
+	case "discovery-garbage":
+		w.IdP.DiscBody = &garbage
+	case "discovery-empty":
+		w.IdP.DiscBody = &empty
+	case "discovery-wrong-types":
+		w.IdP.DiscBody = &wrong
+	case "discovery-no-endpoints":
+		w.IdP.DiscBody = &noend
+	case "jwks-garbage":
+		w.IdP.JWKSBody = &garbage
+	case "jwks-empty-set":
+		w.IdP.JWKSBody = &emptySet
+	case "token-503":
+		w.IdP.Default = &sim.Behaviour{Name: "503", Status: 503}
+	}
+	c.Logf("provider defect: %s", broken)
+	b := w.NewBrowser("a")
+	n := 2 + sim.Pick(c, "n", 6)
+	for i := 0; i < n; i++ {
+		var r *sim.Resp
+		switch sim.Pick(c, "req", 4) {
+		case 0:
+			r = b.Get(genTarget(c, "t"))
+		case 1:
+			r = w.Check(sim.Req{Scheme: "https", Host: w.AppHost, Path: "/x", Headers: map[string]string{"cookie": w.CookieName() + "=" + c.Str("sid", "abcXYZ012", 1, 64)}})
+		case 2:
+			lr := b.Login("/a")
+			r = lr.Final
+			if r == nil {
+				r = lr.Callback
+			}
+			if r == nil {
+				r = lr.First
+			}
+		case 3:
+			r = b.Get("/cb?code=x&state=y")
+		}
+		c.Logf("request %d -> %v", i, r)
+		if r != nil && r.OK {
+			c.Violation("ok-with-broken-provider:"+broken, "a request was answered OK although the provider's %s makes any login impossible", broken)
+		}
+	}
+	c.NonTrivial()
+	c.FP(broken, fmt.Sprint(c.Trace))
+	c.Class("server-with-broken-provider")
+}
+
 func TestC01(t *testing.T) {
 	r := sim.NewRun(t, "C01")
 	defer r.Finish()
@@ -308,7 +366,7 @@ func TestC01(t *testing.T) {
 		"a step during which a fault fired makes the model set-valued (effect happened / did not)",
 		"exp == now and the 5ns the code subtracts from the access-token lifetime count as unexpired",
 	}
-	parts := map[string]func(*sim.Case){"random": c01Random, "enum-single": c01Enum(false), "enum-pairs": c01Enum(true)}
+	parts := map[string]func(*sim.Case){"random": c01Random, "enum-single": c01Enum(false), "enum-pairs": c01Enum(true), "server": c01Server}
 	if r.Replay != "" {
 		r.ReplayFile(parts)
 		return
@@ -319,4 +377,5 @@ func TestC01(t *testing.T) {
 		r.Exhaustive("enum-pairs", 0, parts["enum-pairs"])
 	}
 	r.Rapid("random", r.N(12000, 200000), c01Random)
+	r.Rapid("server", r.N(1500, 40000), c01Server)
 }
